@@ -17,6 +17,8 @@ for id_ in ids:
         print("/repo not clean"); sys.exit(2)
     if subprocess.run(["git", "-C", "/repo", "apply", os.path.join(d, "patch.diff")]).returncode != 0:
         print(id_, "patch does not apply"); continue
+    evp = os.path.join(ROOT, "evidence", meta["property"] + ".json")
+    saved = open(evp).read() if os.path.exists(evp) else None
     try:
         t0 = time.time()
         r = subprocess.run(["./check", meta["property"], "--tier", tier], cwd=ROOT, env=dict(env, VERIF_SEED=os.environ.get("VERIF_SEED", "1")),
@@ -25,6 +27,8 @@ for id_ in ids:
         dt = int(time.time() - t0)
     finally:
         subprocess.run(["git", "-C", "/repo", "checkout", "--", "."])
+        if saved is not None:
+            open(evp, "w").write(saved)  # evidence files describe the unchanged tree only
     viol = next((l for l in out if l.startswith("VIOLATION")), None)
     chk = next((l for l in out if l.startswith("check ")), "")
     eng = ""
